@@ -97,18 +97,17 @@ Proof.
   split; intros H.
   - apply Z.bits_inj'. intros n _. rewrite !Z.land_spec.
     assert (E := f_equal (fun z => Z.testbit z n) H). simpl in E. rewrite su_bits in E.
-    destruct (Z.testbit m n); auto. rewrite !andb_false_r; auto.
+    destruct (Z.testbit m n), (Z.testbit x n), (Z.testbit v n); simpl in *; auto; congruence.
   - apply Z.bits_inj'. intros n _. rewrite su_bits.
     assert (E := f_equal (fun z => Z.testbit z n) H). simpl in E. rewrite !Z.land_spec in E.
-    destruct (Z.testbit m n); auto. rewrite !andb_true_r in E; auto.
+    destruct (Z.testbit m n), (Z.testbit x n), (Z.testbit v n); simpl in *; auto; congruence.
 Qed.
 
 Lemma su_land_other x v m1 m2 : Z.land m1 m2 = 0 -> Z.land (slot_update x v m1) m2 = Z.land x m2.
 Proof.
   intros D. apply Z.bits_inj'. intros n _. rewrite !Z.land_spec, su_bits.
   pose proof (land0_bits _ _ D n) as E.
-  destruct (Z.testbit m1 n), (Z.testbit m2 n); simpl in E; auto; try discriminate.
-  rewrite !andb_false_r; auto.
+  destruct (Z.testbit m1 n), (Z.testbit m2 n), (Z.testbit x n), (Z.testbit v n); simpl in *; auto; discriminate.
 Qed.
 
 Lemma su_changed_indep x v1 m1 v2 m2 :
@@ -146,7 +145,17 @@ Proof.
 Qed.
 
 Lemma slot_apply_sc i s w : sc (slot_apply i s w) = sc s.
-Proof. rewrite slot_apply_nf. destruct (Nat.eqb (w_sig w) i); auto. Qed.
+Proof. rewrite slot_apply_nf. destruct (Nat.eqb (w_sig w) i); reflexivity. Qed.
+
+Lemma pend_comm n v1 m1 v2 m2 (p : bool) :
+  Z.land m1 m2 = 0 ->
+  (p || negb (n =? slot_update n v1 m1)) || negb (slot_update n v1 m1 =? slot_update (slot_update n v1 m1) v2 m2) =
+  (p || negb (n =? slot_update n v2 m2)) || negb (slot_update n v2 m2 =? slot_update (slot_update n v2 m2) v1 m1).
+Proof.
+  intros D. rewrite su_changed_indep by auto.
+  rewrite (su_changed_indep n v2 m2 v1 m1) by (rewrite Z.land_comm; auto).
+  destruct p, (n =? slot_update n v1 m1), (n =? slot_update n v2 m2); auto.
+Qed.
 
 Lemma slot_apply_comm i s w1 w2 :
   (Nat.eqb (w_sig w1) i = true -> Nat.eqb (w_sig w2) i = true -> Z.land (w_mask w1) (w_mask w2) = 0) ->
@@ -155,14 +164,7 @@ Proof.
   intros D. rewrite !slot_apply_nf.
   destruct (Nat.eqb (w_sig w1) i) eqn:E1, (Nat.eqb (w_sig w2) i) eqn:E2; simpl; auto.
   specialize (D eq_refl eq_refl).
-  rewrite (su_comm (sn s) (w_val w1) (w_mask w1) (w_val w2) (w_mask w2)) by auto.
-  f_equal.
-  rewrite su_changed_indep by auto.
-  rewrite (su_comm (sn s) (w_val w2) (w_mask w2) (w_val w1) (w_mask w1)) by (rewrite Z.land_comm; auto).
-  rewrite <- (su_comm (sn s) (w_val w2) (w_mask w2) (w_val w1) (w_mask w1)) by (rewrite Z.land_comm; auto).
-  rewrite (su_changed_indep (sn s) (w_val w2) (w_mask w2) (w_val w1) (w_mask w1)) by (rewrite Z.land_comm; auto).
-  destruct (sp s), (sn s =? slot_update (sn s) (w_val w1) (w_mask w1)),
-           (sn s =? slot_update (sn s) (w_val w2) (w_mask w2)); auto.
+  f_equal; [apply su_comm | apply pend_comm]; auto.
 Qed.
 
 Definition ws_disj (i : nat) (ws1 ws2 : list write) : Prop :=
@@ -235,3 +237,325 @@ Proof.
     apply fold_slot_apply_frame. intros w Hw E. apply Nat.eqb_eq in E. subst i. apply H; auto.
   - rewrite !nth_overflow; auto; rewrite map_length; try rewrite apply_writes_length; auto.
 Qed.
+
+(* ================================================================ 1b: order of `_processes` *)
+(* write_disjoint: every process k writes only inside its own bit set `own k i` of slot i, the own sets of two
+   processes are disjoint, and run() depends on `next` only through the process's own bits (an RTL sync process
+   starts from slots[i].next of the signals it drives). *)
+Record disc (ps : list proc) (own : nat -> nat -> Z) : Prop := {
+  d_disj : forall a b i, a <> b -> Z.land (own a i) (own b i) = 0;
+  d_within : forall k l res cu nx w, In w (r_writes (p_run (nth k ps no_proc) l res cu nx)) ->
+               Z.land (w_mask w) (Z.lnot (own k (w_sig w))) = 0;
+  d_reads : forall k l res cu nx nx',
+               (forall i, Z.land (nth i nx 0) (own k i) = Z.land (nth i nx' 0) (own k i)) ->
+               p_run (nth k ps no_proc) l res cu nx = p_run (nth k ps no_proc) l res cu nx' }.
+
+Definition write_disjoint (ps : list proc) : Prop := exists own, disc ps own.
+
+Lemma sub_disj_other k oa ob : Z.land k (Z.lnot oa) = 0 -> Z.land oa ob = 0 -> Z.land k ob = 0.
+Proof.
+  intros H D. apply Z.bits_inj'. intros n Hn. rewrite Z.land_spec, Z.bits_0.
+  pose proof (land0_bits _ _ H n) as E1. pose proof (land0_bits _ _ D n) as E2.
+  rewrite Z.lnot_spec in E1 by lia.
+  destruct (Z.testbit k n), (Z.testbit oa n), (Z.testbit ob n); simpl in *; auto; discriminate.
+Qed.
+
+Section ProcOrder.
+  Variable ps : list proc.
+  Variable own : nat -> nat -> Z.
+  Hypothesis D : disc ps own.
+
+  Lemma proc_step_within k now p cu nx w :
+    In w (snd (proc_step (nth k ps no_proc) now p cu nx)) -> Z.land (w_mask w) (Z.lnot (own k (w_sig w))) = 0.
+  Proof.
+    unfold proc_step. cbv zeta beta. destruct (p_trig (nth k ps no_proc)).
+    - cbn [snd]. apply (d_within _ _ D).
+    - destruct (ps_first p).
+      + destruct (has_changed (t :: l)); cbn [snd r_writes In]; [apply (d_within _ _ D)|tauto].
+      + destruct (t_broken (ps_trig p)); cbn [snd r_writes In]; [tauto|apply (d_within _ _ D)].
+  Qed.
+
+  Lemma proc_step_reads k now p cu nx nx' :
+    (forall i, Z.land (nth i nx 0) (own k i) = Z.land (nth i nx' 0) (own k i)) ->
+    proc_step (nth k ps no_proc) now p cu nx = proc_step (nth k ps no_proc) now p cu nx'.
+  Proof.
+    intros H. unfold proc_step. destruct (p_trig (nth k ps no_proc)).
+    - rewrite (d_reads _ _ D k _ _ cu nx nx' H). reflexivity.
+    - destruct (ps_first p).
+      + destruct (has_changed (t :: l)); auto. rewrite (d_reads _ _ D k _ _ cu nx nx' H). reflexivity.
+      + destruct (t_broken (ps_trig p)); auto. rewrite (d_reads _ _ D k _ _ cu nx nx' H). reflexivity.
+  Qed.
+
+  Lemma run_proc_runnable st k :
+    ps_run (nth k (e_procs st) no_pstate) = true ->
+    run_proc ps st k =
+    let X := proc_step (nth k ps no_proc) (e_now st) (nth k (e_procs st) no_pstate)
+                       (currs (e_slots st)) (nexts (e_slots st)) in
+    ES (apply_writes (snd X) (e_slots st)) (set_nth k (fst X) (e_procs st)) (e_tbs st)
+       (e_now st) (e_deltas st) (e_trace st).
+  Proof. intros H. unfold run_proc. rewrite H. destruct proc_step; reflexivity. Qed.
+
+  Lemma run_proc_idle st k :
+    ps_run (nth k (e_procs st) no_pstate) = false -> run_proc ps st k = st.
+  Proof. intros H. unfold run_proc. rewrite H. reflexivity. Qed.
+
+  Lemma run_proc_comm st a b : run_proc ps (run_proc ps st a) b = run_proc ps (run_proc ps st b) a.
+  Proof.
+    destruct (Nat.eq_dec a b) as [->|N]; [reflexivity|].
+    destruct (ps_run (nth a (e_procs st) no_pstate)) eqn:Ra, (ps_run (nth b (e_procs st) no_pstate)) eqn:Rb.
+    - (* both runnable *)
+      rewrite (run_proc_runnable st a Ra), (run_proc_runnable st b Rb). cbv zeta.
+      set (Xa := proc_step (nth a ps no_proc) (e_now st) (nth a (e_procs st) no_pstate)
+                           (currs (e_slots st)) (nexts (e_slots st))).
+      set (Xb := proc_step (nth b ps no_proc) (e_now st) (nth b (e_procs st) no_pstate)
+                           (currs (e_slots st)) (nexts (e_slots st))).
+      rewrite run_proc_runnable by (simpl; rewrite nth_set_nth_neq by auto; exact Rb).
+      rewrite (run_proc_runnable (ES _ (set_nth b _ _) _ _ _ _)) by (simpl; rewrite nth_set_nth_neq by auto; exact Ra).
+      cbv zeta. simpl.
+      rewrite !currs_apply_writes.
+      rewrite (nth_set_nth_neq a b) by auto. rewrite (nth_set_nth_neq b a) by auto.
+      assert (Fa : forall w, In w (snd Xa) -> Z.land (w_mask w) (own b (w_sig w)) = 0).
+      { intros w Hw. eapply sub_disj_other; [apply (proc_step_within a _ _ _ _ _ Hw)|apply (d_disj _ _ D); auto]. }
+      assert (Fb : forall w, In w (snd Xb) -> Z.land (w_mask w) (own a (w_sig w)) = 0).
+      { intros w Hw. eapply sub_disj_other; [apply (proc_step_within b _ _ _ _ _ Hw)|apply (d_disj _ _ D); auto]. }
+      rewrite (proc_step_reads b _ _ _ (nexts (apply_writes (snd Xa) (e_slots st))) (nexts (e_slots st)))
+        by (apply nexts_apply_writes_frame; exact Fa).
+      rewrite (proc_step_reads a _ _ _ (nexts (apply_writes (snd Xb) (e_slots st))) (nexts (e_slots st)))
+        by (apply nexts_apply_writes_frame; exact Fb).
+      fold Xa Xb.
+      rewrite (apply_writes_comm (snd Xa) (snd Xb)).
+      + rewrite (set_nth_comm b a) by auto. reflexivity.
+      + intros i w1 w2 H1 H2 E1 E2. apply Nat.eqb_eq in E1, E2.
+        eapply mask_sub_disj.
+        * apply (proc_step_within a _ _ _ _ _ H1).
+        * apply (proc_step_within b _ _ _ _ _ H2).
+        * rewrite E1, E2. apply (d_disj _ _ D); auto.
+    - rewrite (run_proc_idle st b Rb).
+      rewrite (run_proc_runnable st a Ra). cbv zeta.
+      rewrite run_proc_idle by (simpl; rewrite nth_set_nth_neq by auto; exact Rb). reflexivity.
+    - rewrite (run_proc_idle st a Ra).
+      rewrite (run_proc_runnable st b Rb). cbv zeta.
+      rewrite run_proc_idle by (simpl; rewrite nth_set_nth_neq by auto; exact Ra). reflexivity.
+    - rewrite (run_proc_idle st a Ra), (run_proc_idle st b Rb), (run_proc_idle st a Ra). reflexivity.
+  Qed.
+
+  Lemma procs_order_independent o o' st :
+    Permutation o o' -> fold_left (run_proc ps) o st = fold_left (run_proc ps) o' st.
+  Proof. intros P. apply fold_left_perm; auto. intros; apply run_proc_comm. Qed.
+End ProcOrder.
+
+(* ================================================================ 2: order of `pending` *)
+Lemma pos_fires_after_fire os i j c n c' n' p :
+  i <> j -> pos_fires i c n (pos_fire os j c' n' p) = pos_fires i c n p.
+Proof.
+  intros N. unfold pos_fire. destruct (pos_fires j c' n' p) eqn:F; auto.
+  unfold pos_fires in *. destruct p as [t r h d]; simpl in *.
+  destruct t; simpl in *; try (rewrite andb_false_r in F; discriminate).
+  - destruct (Nat.eqb sig j) eqn:E; [|rewrite andb_false_r in F; discriminate].
+    apply Nat.eqb_eq in E. subst sig.
+    replace (Nat.eqb j i) with false by (symmetry; apply Nat.eqb_neq; auto).
+    simpl. rewrite !andb_false_r. reflexivity.
+  - destruct (Nat.eqb sig j) eqn:E; [|rewrite andb_false_r in F; discriminate].
+    apply Nat.eqb_eq in E. subst sig.
+    replace (Nat.eqb j i) with false by (symmetry; apply Nat.eqb_neq; auto).
+    rewrite !andb_false_r. reflexivity.
+Qed.
+
+Lemma pos_fire_comm os i j c n c' n' p :
+  i <> j -> pos_fire os i c n (pos_fire os j c' n' p) = pos_fire os j c' n' (pos_fire os i c n p).
+Proof.
+  intros N. unfold pos_fire at 1 3.
+  rewrite pos_fires_after_fire by auto. rewrite pos_fires_after_fire by auto.
+  destruct (pos_fires i c n p) eqn:Fi, (pos_fires j c' n' p) eqn:Fj; auto.
+  - (* both cannot fire: the element names one signal *)
+    exfalso. unfold pos_fires in *. destruct (tp_trig p); try (rewrite andb_false_r in Fi; discriminate).
+    + destruct (Nat.eqb sig i) eqn:E1; [|rewrite !andb_false_r in Fi; discriminate].
+      destruct (Nat.eqb sig j) eqn:E2; [|rewrite !andb_false_r in Fj; discriminate].
+      apply Nat.eqb_eq in E1, E2. congruence.
+    + destruct (Nat.eqb sig i) eqn:E1; [|rewrite !andb_false_r in Fi; discriminate].
+      destruct (Nat.eqb sig j) eqn:E2; [|rewrite !andb_false_r in Fj; discriminate].
+      apply Nat.eqb_eq in E1, E2. congruence.
+  - unfold pos_fire. rewrite Fi, Fj. reflexivity.
+  - unfold pos_fire. rewrite Fi, Fj. reflexivity.
+  - unfold pos_fire. rewrite Fi, Fj. reflexivity.
+Qed.
+
+Lemma existsb_fires_after os i j c n c' n' l :
+  i <> j -> existsb (pos_fires i c n) (map (pos_fire os j c' n') l) = existsb (pos_fires i c n) l.
+Proof.
+  intros N. induction l; simpl; auto. rewrite pos_fires_after_fire by auto. rewrite IHl. reflexivity.
+Qed.
+
+Lemma notify_comm i j c n c' n' T :
+  i <> j -> notify i c n (notify j c' n' T) = notify j c' n' (notify i c n T).
+Proof.
+  intros N. unfold notify at 2 4.
+  destruct (t_broken T) eqn:B.
+  - unfold notify. rewrite B. reflexivity.
+  - destruct (existsb (pos_fires j c' n') (t_pos T)) eqn:Fj, (existsb (pos_fires i c n) (t_pos T)) eqn:Fi.
+    + destruct (t_waiting T) eqn:Wt.
+      * unfold notify. simpl.
+        rewrite !existsb_fires_after by auto. rewrite Fi, Fj.
+        rewrite !map_map. f_equal. apply map_ext. intros p. apply pos_fire_comm; auto.
+      * unfold notify. simpl. reflexivity.
+    + destruct (t_waiting T) eqn:Wt.
+      * unfold notify. simpl. rewrite existsb_fires_after by auto. rewrite Fi, B, Fj, Wt. reflexivity.
+      * unfold notify. simpl. rewrite B, Fj, Wt. reflexivity.
+    + destruct (t_waiting T) eqn:Wt.
+      * unfold notify. simpl. rewrite existsb_fires_after by auto. rewrite Fj, B, Fi, Wt. reflexivity.
+      * unfold notify. simpl. rewrite B, Fi, Wt. reflexivity.
+    + unfold notify. rewrite B, Fi, Fj. reflexivity.
+Qed.
+
+Lemma ps_notify_comm ps i j c n c' n' k p :
+  i <> j -> ps_notify ps i c n k (ps_notify ps j c' n' k p) = ps_notify ps j c' n' k (ps_notify ps i c n k p).
+Proof.
+  intros N. unfold ps_notify. simpl. rewrite (notify_comm i j) by auto. f_equal.
+  destruct (ps_run p), (p_wake (nth k ps no_proc) j c' n'), (p_wake (nth k ps no_proc) i c n); auto.
+Qed.
+
+Lemma tb_notify_comm i j c n c' n' t :
+  i <> j -> tb_notify i c n (tb_notify j c' n' t) = tb_notify j c' n' (tb_notify i c n t).
+Proof. intros N. unfold tb_notify. simpl. rewrite (notify_comm i j) by auto. reflexivity. Qed.
+
+Lemma commit_slot_comm ps x i j : commit_slot ps (commit_slot ps x i) j = commit_slot ps (commit_slot ps x j) i.
+Proof.
+  destruct (Nat.eq_dec i j) as [->|N]; [reflexivity|].
+  destruct x as [st ch]. unfold commit_slot at 2 4.
+  destruct (nth_error (e_slots st) i) as [si|] eqn:Ei, (nth_error (e_slots st) j) as [sj|] eqn:Ej.
+  - destruct (sp si && negb (sc si =? sn si)) eqn:Ci, (sp sj && negb (sc sj =? sn sj)) eqn:Cj.
+    + unfold commit_slot. simpl.
+      rewrite nth_error_set_nth_neq by auto. rewrite nth_error_set_nth_neq by auto.
+      rewrite Ei, Ej, Ci, Cj. f_equal. f_equal.
+      * apply set_nth_comm; auto.
+      * unfold mapi. rewrite !mapi_from_comp. apply mapi_from_ext. intros. apply ps_notify_comm; auto.
+      * rewrite !map_map. apply map_ext. intros. apply tb_notify_comm; auto.
+    + unfold commit_slot. simpl. rewrite nth_error_set_nth_neq by auto. rewrite Ei, Ej, Ci, Cj. reflexivity.
+    + unfold commit_slot. simpl. rewrite nth_error_set_nth_neq by auto. rewrite Ei, Ej, Ci, Cj. reflexivity.
+    + unfold commit_slot. rewrite Ei, Ej, Ci, Cj. reflexivity.
+  - destruct (sp si && negb (sc si =? sn si)) eqn:Ci.
+    + unfold commit_slot. simpl. rewrite nth_error_set_nth_neq by auto. rewrite Ei, Ej, Ci. reflexivity.
+    + unfold commit_slot. rewrite Ei, Ej, Ci. reflexivity.
+  - destruct (sp sj && negb (sc sj =? sn sj)) eqn:Cj.
+    + unfold commit_slot. simpl. rewrite nth_error_set_nth_neq by auto. rewrite Ei, Ej, Cj. reflexivity.
+    + unfold commit_slot. rewrite Ei, Ej, Cj. reflexivity.
+  - unfold commit_slot. rewrite Ei, Ej. reflexivity.
+Qed.
+
+Lemma commit_order_independent ps o o' x :
+  Permutation o o' -> fold_left (commit_slot ps) o x = fold_left (commit_slot ps) o' x.
+Proof. intros P. apply fold_left_perm; auto. intros; apply commit_slot_comm. Qed.
+
+(* ================================================================ 1a: order of `_active_triggers` *)
+Lemma trig_step_comm st a b : trig_step (trig_step st a) b = trig_step (trig_step st b) a.
+Proof.
+  destruct a as [a|a], b as [b|b].
+  - destruct (Nat.eq_dec a b) as [->|N]; [reflexivity|].
+    unfold trig_step at 2 4.
+    destruct (t_active (ps_trig (nth a (e_procs st) no_pstate))) eqn:Aa,
+             (t_active (ps_trig (nth b (e_procs st) no_pstate))) eqn:Ab;
+      unfold trig_step; simpl; rewrite ?(nth_set_nth_neq a b), ?(nth_set_nth_neq b a) by auto;
+      rewrite ?Aa, ?Ab; simpl; auto.
+    rewrite (set_nth_comm b a) by auto. reflexivity.
+  - unfold trig_step at 2 4.
+    destruct (t_active (ps_trig (nth a (e_procs st) no_pstate))) eqn:Aa,
+             (t_active (tb_trig (nth b (e_tbs st) no_tb))) eqn:Ab;
+      unfold trig_step; simpl; rewrite ?Aa, ?Ab; simpl; auto.
+  - unfold trig_step at 2 4.
+    destruct (t_active (tb_trig (nth a (e_tbs st) no_tb))) eqn:Aa,
+             (t_active (ps_trig (nth b (e_procs st) no_pstate))) eqn:Ab;
+      unfold trig_step; simpl; rewrite ?Aa, ?Ab; simpl; auto.
+  - destruct (Nat.eq_dec a b) as [->|N]; [reflexivity|].
+    unfold trig_step at 2 4.
+    destruct (t_active (tb_trig (nth a (e_tbs st) no_tb))) eqn:Aa,
+             (t_active (tb_trig (nth b (e_tbs st) no_tb))) eqn:Ab;
+      unfold trig_step; simpl; rewrite ?(nth_set_nth_neq a b), ?(nth_set_nth_neq b a) by auto;
+      rewrite ?Aa, ?Ab; simpl; auto.
+    rewrite (set_nth_comm b a) by auto. reflexivity.
+Qed.
+
+Lemma trigger_order_independent o o' st :
+  Permutation o o' -> fold_left trig_step o st = fold_left trig_step o' st.
+Proof. intros P. apply fold_left_perm; auto. intros; apply trig_step_comm. Qed.
+
+(* ================================================================ one delta, settle, whole runs *)
+Definition orders_equiv (o o' : orders) : Prop :=
+  Permutation (o_trig o) (o_trig o') /\ Permutation (o_proc o) (o_proc o') /\ Permutation (o_commit o) (o_commit o').
+
+Definition oracle_equiv (orc orc' : oracle) : Prop := forall n, orders_equiv (orc n) (orc' n).
+
+Section Runs.
+  Variable ps : list proc.
+  Hypothesis WD : write_disjoint ps.
+
+  Lemma run_delta_order_independent o o' st : orders_equiv o o' -> run_delta ps o st = run_delta ps o' st.
+  Proof.
+    destruct WD as [own D]. intros (P1 & P2 & P3). unfold run_delta.
+    rewrite (trigger_order_independent _ _ st P1).
+    rewrite (procs_order_independent ps own D _ _ _ P2).
+    rewrite (commit_order_independent ps _ _ _ P3). reflexivity.
+  Qed.
+
+  Variables orc orc' : oracle.
+  Hypothesis OE : oracle_equiv orc orc'.
+
+  Lemma settle_order_independent fuel st : settle ps orc fuel st = settle ps orc' fuel st.
+  Proof.
+    revert st; induction fuel as [|f IH]; intros st; simpl; auto.
+    rewrite (run_delta_order_independent _ _ st (OE (e_deltas st))).
+    destruct (run_delta ps (orc' (e_deltas st)) st) as [st' c]. destruct c; auto.
+  Qed.
+
+  Lemma tb_set_order_independent sfuel sig sh v st :
+    tb_set ps orc sfuel sig sh v st = tb_set ps orc' sfuel sig sh v st.
+  Proof. unfold tb_set. rewrite settle_order_independent. reflexivity. Qed.
+
+  Lemma tb_exec_order_independent sfuel fuel k st :
+    tb_exec ps orc sfuel fuel k st = tb_exec ps orc' sfuel fuel k st.
+  Proof.
+    revert st; induction fuel as [|f IH]; intros st; [reflexivity|].
+    cbn [tb_exec]. cbv zeta.
+    destruct (tb_mode (nth k (e_tbs st) no_tb) =? 0).
+    - destruct (tb_ops (nth k (e_tbs st) no_tb)) as [|[sig sh v|sig|spec b|spec|spec n] r]; auto.
+      rewrite tb_set_order_independent. apply IH.
+    - destruct (t_broken (tb_trig (nth k (e_tbs st) no_tb))); auto.
+      destruct (tb_mode (nth k (e_tbs st) no_tb) =? 1); auto.
+      destruct (tick_fmt (tb_res (nth k (e_tbs st) no_tb))) as [|c [|r vs]]; auto.
+      destruct (negb (r =? 0)); auto.
+      destruct (tb_mode (nth k (e_tbs st) no_tb) =? 2).
+      + destruct (negb (last vs 0 =? 0)); auto.
+      + destruct (tb_cnt (nth k (e_tbs st) no_tb)) as [|[|m]]; auto.
+  Qed.
+
+  Lemma tb_pass_order_independent sfuel ks acc :
+    tb_pass ps orc sfuel ks acc = tb_pass ps orc' sfuel ks acc.
+  Proof.
+    revert acc; induction ks as [|k r IH]; intros [st ran]; cbn [tb_pass]; auto.
+    cbv zeta. destruct (tb_run (nth k (e_tbs st) no_tb)); auto.
+    rewrite tb_exec_order_independent. apply IH.
+  Qed.
+
+  Lemma tb_loop_order_independent sfuel fuel st :
+    tb_loop ps orc sfuel fuel st = tb_loop ps orc' sfuel fuel st.
+  Proof.
+    revert st; induction fuel as [|f IH]; intros st; cbn [tb_loop]; auto.
+    rewrite tb_pass_order_independent.
+    destruct (tb_pass ps orc' sfuel (seq 0 (length (e_tbs st))) (st, false)) as [st' ran].
+    destruct ran; auto.
+  Qed.
+
+  Lemma advance_order_independent sfuel tfuel st :
+    advance ps orc sfuel tfuel st = advance ps orc' sfuel tfuel st.
+  Proof. unfold advance. rewrite settle_order_independent, tb_loop_order_independent. reflexivity. Qed.
+
+  (* the whole run (every testbench record, every final signal value, the time) is the same whatever order the
+     three sets are iterated in at each delta cycle *)
+  Lemma run_order_independent sfuel tfuel t_end fuel st :
+    run ps orc sfuel tfuel t_end fuel st = run ps orc' sfuel tfuel t_end fuel st.
+  Proof.
+    revert st; induction fuel as [|f IH]; intros st; cbn [run]; auto.
+    rewrite advance_order_independent.
+    destruct (advance ps orc' sfuel tfuel st) as [st' crit].
+    destruct (crit && (e_now st' <=? t_end) && negb (quiescent st')); auto.
+  Qed.
+End Runs.
